@@ -919,6 +919,7 @@ def check_scenarios(ctx, scs):
         by[sc["kind"]].append(sc)
     specs = {"mh": ("BslMh_Trace", record_mh, 12), "lik": ("SynLik_Trace", record_lik, 250), "run": ("BslRound_Trace", record_run, 60)}
     all_traces = {}
+    failed = []
     for kind in ("mh", "lik", "run"):
         if not by[kind]:
             continue
@@ -946,11 +947,15 @@ def check_scenarios(ctx, scs):
                 moved = sum(1 for a, b in zip(chain, chain[1:]) if a != b)
                 ctx.case(("run", ctx_digest(sc)), nontrivial=(n_rej > 0 and moved > 0))
             if v["verdict"] != "ok":
-                at = evs[min(max(v["l"] - 2, 0), len(evs) - 1)]
-                ctx.fail(v["verdict"], sc, detail=dict(at_event=v["l"] - 1, event=at, pinned=sc.get("pin")),
-                         finding=classify(sc, tr, v))
+                failed.append((sc, tr, v))
             elif v["drift"]:
                 ctx.drifted(v["drift"], sc)
+    # pinned scenarios first: only the first 50 failures get a replay file
+    failed.sort(key=lambda t: 0 if t[0].get("pin") else 1)
+    for sc, tr, v in failed:
+        evs = tr["events"]
+        at = evs[min(max(v["l"] - 2, 0), len(evs) - 1)]
+        ctx.fail(v["verdict"], sc, detail=dict(at_event=v["l"] - 1, event=at, pinned=sc.get("pin")), finding=classify(sc, tr, v))
     return all_traces
 
 
